@@ -21,7 +21,7 @@ def one(job):
         if o.canary: continue
         for seed in seeds:
             s = Solver(); s.set(timeout=10000, random_seed=seed); s.set('smt.random_seed', seed)
-            s.add(M.W.axioms); s.add(o.hyps); s.add(Not(o.goal)); t = time.time(); r = s.check(); dt = time.time() - t
+            s.add([] if getattr(o, "isolated", False) else M.W.axioms); s.add(o.hyps); s.add(Not(o.goal)); t = time.time(); r = s.check(); dt = time.time() - t
             worst = max(worst, dt)
             if r != unsat: bad.append((o.name, seed, str(r)))
             elif dt > 3: bad.append((o.name, seed, f'slow {dt:.1f}s'))
